@@ -16,49 +16,49 @@ open Hertz.Route
 
 /-! ## running -/
 
-theorem run_next {path : Bytes} {pc pc' : Pc} {st st' : St} (f : Nat)
-    (h : step path false pc st = .next pc' st') : run path false (f + 1) pc st = run path false f pc' st' := by
+theorem run_next {u : Bool} {path : Bytes} {pc pc' : Pc} {st st' : St} (f : Nat)
+    (h : step path u pc st = .next pc' st') : run path u (f + 1) pc st = run path u f pc' st' := by
   simp [run, h]
 
-theorem run_done {path : Bytes} {pc : Pc} {st : St} {o : Out} (f : Nat)
-    (h : step path false pc st = .done o) : run path false (f + 1) pc st = some o := by
+theorem run_done {u : Bool} {path : Bytes} {pc : Pc} {st : St} {o : Out} (f : Nat)
+    (h : step path u pc st = .done o) : run path u (f + 1) pc st = some o := by
   simp [run, h]
 
-def Reach (path : Bytes) (k : Nat) (pc : Pc) (st : St) (pc' : Pc) (st' : St) : Prop :=
-  ∀ f, run path false (k + f) pc st = run path false f pc' st'
+def Reach (u : Bool) (path : Bytes) (k : Nat) (pc : Pc) (st : St) (pc' : Pc) (st' : St) : Prop :=
+  ∀ f, run path u (k + f) pc st = run path u f pc' st'
 
-def Halts (path : Bytes) (k : Nat) (pc : Pc) (st : St) (o : Out) : Prop :=
-  ∀ f, run path false (k + f) pc st = some o
+def Halts (u : Bool) (path : Bytes) (k : Nat) (pc : Pc) (st : St) (o : Out) : Prop :=
+  ∀ f, run path u (k + f) pc st = some o
 
 /-- after backtracking out of a node whose ancestors are `S`: loop left when there is no parent -/
-def Exits (path : Bytes) (k : Nat) (pc : Pc) (st : St) (S : List Node) (pc' : Pc) (st' : St) : Prop :=
-  ∀ f, run path false (k + f) pc st = if S = [] then some (post st' none) else run path false f pc' st'
+def Exits (u : Bool) (path : Bytes) (k : Nat) (pc : Pc) (st : St) (S : List Node) (pc' : Pc) (st' : St) : Prop :=
+  ∀ f, run path u (k + f) pc st = if S = [] then some (post false st' none) else run path u f pc' st'
 
-theorem reach_refl (path : Bytes) (pc : Pc) (st : St) : Reach path 0 pc st pc st := by
+theorem reach_refl (u : Bool) (path : Bytes) (pc : Pc) (st : St) : Reach u path 0 pc st pc st := by
   intro f; simp
 
-theorem reach_step {path : Bytes} {pc pc' : Pc} {st st' : St}
-    (h : step path false pc st = .next pc' st') : Reach path 1 pc st pc' st' := by
+theorem reach_step {u : Bool} {path : Bytes} {pc pc' : Pc} {st st' : St}
+    (h : step path u pc st = .next pc' st') : Reach u path 1 pc st pc' st' := by
   intro f; rw [Nat.add_comm]; exact run_next f h
 
-theorem halts_step {path : Bytes} {pc : Pc} {st : St} {o : Out}
-    (h : step path false pc st = .done o) : Halts path 1 pc st o := by
+theorem halts_step {u : Bool} {path : Bytes} {pc : Pc} {st : St} {o : Out}
+    (h : step path u pc st = .done o) : Halts u path 1 pc st o := by
   intro f; rw [Nat.add_comm]; exact run_done f h
 
-theorem reach_trans {path : Bytes} {a b : Nat} {p1 p2 p3 : Pc} {s1 s2 s3 : St}
-    (h1 : Reach path a p1 s1 p2 s2) (h2 : Reach path b p2 s2 p3 s3) : Reach path (a + b) p1 s1 p3 s3 := by
+theorem reach_trans {u : Bool} {path : Bytes} {a b : Nat} {p1 p2 p3 : Pc} {s1 s2 s3 : St}
+    (h1 : Reach u path a p1 s1 p2 s2) (h2 : Reach u path b p2 s2 p3 s3) : Reach u path (a + b) p1 s1 p3 s3 := by
   intro f; rw [Nat.add_assoc, h1, h2]
 
-theorem reach_halts {path : Bytes} {a b : Nat} {p1 p2 : Pc} {s1 s2 : St} {o : Out}
-    (h1 : Reach path a p1 s1 p2 s2) (h2 : Halts path b p2 s2 o) : Halts path (a + b) p1 s1 o := by
+theorem reach_halts {u : Bool} {path : Bytes} {a b : Nat} {p1 p2 : Pc} {s1 s2 : St} {o : Out}
+    (h1 : Reach u path a p1 s1 p2 s2) (h2 : Halts u path b p2 s2 o) : Halts u path (a + b) p1 s1 o := by
   intro f; rw [Nat.add_assoc, h1, h2]
 
-theorem reach_exits {path : Bytes} {a b : Nat} {p1 p2 p3 : Pc} {s1 s2 s3 : St} {S : List Node}
-    (h1 : Reach path a p1 s1 p2 s2) (h2 : Exits path b p2 s2 S p3 s3) : Exits path (a + b) p1 s1 S p3 s3 := by
+theorem reach_exits {u : Bool} {path : Bytes} {a b : Nat} {p1 p2 p3 : Pc} {s1 s2 s3 : St} {S : List Node}
+    (h1 : Reach u path a p1 s1 p2 s2) (h2 : Exits u path b p2 s2 S p3 s3) : Exits u path (a + b) p1 s1 S p3 s3 := by
   intro f; rw [Nat.add_assoc, h1, h2]
 
-theorem exits_reach {path : Bytes} {k : Nat} {p1 p2 : Pc} {s1 s2 : St} {S : List Node} (hS : S ≠ [])
-    (h : Exits path k p1 s1 S p2 s2) : Reach path k p1 s1 p2 s2 := by
+theorem exits_reach {u : Bool} {path : Bytes} {k : Nat} {p1 p2 : Pc} {s1 s2 : St} {S : List Node} (hS : S ≠ [])
+    (h : Exits u path k p1 s1 S p2 s2) : Reach u path k p1 s1 p2 s2 := by
   intro f; rw [h, if_neg hS]
 
 /-! ## lists -/
@@ -97,6 +97,32 @@ theorem getD_of_take (a b : List Bytes) (d : Nat) (h : a.take (d + 1) = b.take (
   simp at h1
   simp [List.getD_eq_getElem?_getD, h1]
 
+theorem map_unescapeVal_false (ps : List (Bytes × Bytes)) : (ps.map fun kv => (kv.1, unescapeVal false kv.2)) = ps := by
+  induction ps with
+  | nil => rfl
+  | cons a r ih => simp [unescapeVal, ih]
+
+theorem zipKeys_map (U : Bytes → Bytes) : ∀ (ns vs : List Bytes),
+    zipKeys ns (vs.map U) = (zipKeys ns vs).map (fun kv => (kv.1, U kv.2))
+  | [], [] => by simp [zipKeys]
+  | _ :: _, [] => by simp [zipKeys]
+  | [], v :: vs => by simp [zipKeys, zipKeys_map U [] vs]
+  | n :: ns, v :: vs => by simp [zipKeys, zipKeys_map U ns vs]
+
+theorem unescFirst_none_take : ∀ (n : Nat) (arr : List Bytes),
+    (unescFirst n none arr).take n = (arr.take n).map (unescapeVal true)
+  | 0, arr => by simp [unescFirst]
+  | n + 1, [] => by simp [unescFirst]
+  | n + 1, v :: r => by simp [unescFirst, unescFirst_none_take n r]
+
+theorem unescFirst_skip_take : ∀ (d : Nat) (arr : List Bytes) (x : Bytes), d < arr.length →
+    (unescFirst (d + 1) (some d) (arr.set d x)).take (d + 1) = (arr.take d).map (unescapeVal true) ++ [x]
+  | _, [], _, h => by simp at h
+  | 0, v :: r, x, _ => by simp [unescFirst]
+  | d + 1, v :: r, x, h => by
+    simp at h
+    simp [unescFirst, List.set, unescFirst_skip_take d r x h]
+
 theorem visitChild_eq (cs : List Node) (c : UInt8) (s : Bytes) (ps : List Bytes) (cap : Nat) :
     visitChild cs c s ps cap = match findChild cs c with | none => .miss | some ch => visit ch s ps cap := by
   induction cs with
@@ -126,10 +152,11 @@ theorem drop_len_le (path : Bytes) (si : Nat) (s : Bytes) (h : path.drop si = s)
 /-! ## the three phases behind the prefix test -/
 
 /-- `Any:` with a catch-all child: the recursive hit is what the machine returns; a miss means there is no catch-all -/
-theorem any_sim (path : Bytes) (cap : Nat) (n : Node) (S : List Node) (s : Bytes) (si : Nat) (arr : List Bytes) (d : Nat)
+theorem any_sim (u : Bool) (path : Bytes) (cap : Nat) (n : Node) (S : List Node) (s : Bytes) (si : Nat) (arr : List Bytes) (d : Nat)
     (t : Bool) (hwf : WFO n.anyChild .akind) (hp : PnOKO n.anyChild d cap) (hlen : arr.length = cap) :
     (∀ f, visitAny n.anyChild s (arr.take d) cap = .hit f →
-      ∃ t' arr' plen', Halts path 1 .any ⟨n :: S, s, si, arr, d, d, t⟩ (.value (some f.handlers) f.fullPath f.params t' arr' plen')) ∧
+      ∃ t' arr' plen', Halts u path 1 .any ⟨n :: S, s, si, arr, d, d, t⟩
+        (.value (some f.handlers) f.fullPath (f.params.map fun kv => (kv.1, unescapeVal u kv.2)) t' arr' plen')) ∧
     (visitAny n.anyChild s (arr.take d) cap = .miss → n.anyChild = none) := by
   cases hac : n.anyChild with
   | none => simp [visitAny]
@@ -169,17 +196,41 @@ theorem any_sim (path : Bytes) (cap : Nat) (n : Node) (S : List Node) (s : Bytes
       intro f hf
       injection hf with hf
       subst hf
-      refine ⟨t, arr.set d s, d + 1, ?_⟩
-      apply halts_step
-      simp only [step, stepAny, hac, Node.pnames, Node.handlers, hlen, if_neg hc1, hc2, Bool.false_eq_true, if_false,
-        post, Node.ppath]
-      simp [hidx, hpn', unescapeVal, take_set_succ arr d s hd]
+      cases u with
+      | false =>
+        refine ⟨t, arr.set d s, d + 1, ?_⟩
+        apply halts_step
+        rw [map_unescapeVal_false]
+        simp only [step, stepAny, hac, Node.pnames, Node.handlers, hlen, if_neg hc1, hc2, Bool.false_eq_true, if_false,
+          post, Node.ppath]
+        have hne : pnames ≠ [] := by intro h0; rw [h0] at hpn'; simp at hpn'
+        simp [hidx, hpn', hne, unescapeVal, take_set_succ arr d s hd]
+      | true =>
+        refine ⟨t, unescFirst (d + 1) (some d) (arr.set d (unescapeVal true s)), d + 1, ?_⟩
+        apply halts_step
+        have hsk : skipIdx (Node.mk .akind label pfx cs ppath pnames (some h) pc' ac') = some d := by
+          have hge : pnames.length ≥ 1 := by omega
+          show (if Kind.akind = Kind.akind ∧ pnames.length ≥ 1 then some (pnames.length - 1) else none) = some d
+          rw [if_pos ⟨rfl, hge⟩, hidx]
+        simp only [step, stepAny, hac, Node.pnames, Node.handlers, hlen, if_neg hc1, hc2, Bool.false_eq_true, if_false,
+          post, Node.ppath, hsk]
+        have hnn : ¬ (pnames.length > d + 1) := by omega
+        have hc3 : (decide (pnames.length = 0) || decide (d ≥ d + 1)) = false := by
+          have h1 : ¬ pnames.length = 0 := by omega
+          have h2 : ¬ (d ≥ d + 1) := by omega
+          simp only [h1, h2, decide_false, Bool.or_self]
+        simp only [hidx, hc3, Bool.false_eq_true, if_false, if_neg hnn, Option.isSome_some, Bool.and_self, if_true,
+          unescFirst_skip_take d arr (unescapeVal true s) hd]
+        rw [← zipKeys_map]
+        simp only [List.map_append, List.map_cons, List.map_nil]
+        have hne : pnames ≠ [] := by intro h0; rw [h0] at hpn'; simp at hpn'
+        simp [hne]
 
 /-! ## leaving a node -/
 
-theorem back_static (path : Bytes) (n : Node) (S : List Node) (s : Bytes) (si : Nat) (arr : List Bytes) (d : Nat) (t : Bool)
+theorem back_static (u : Bool) (path : Bytes) (n : Node) (S : List Node) (s : Bytes) (si : Nat) (arr : List Bytes) (d : Nat) (t : Bool)
     (hk : n.kind = .skind) (hac : n.anyChild = none) (h1 : n.pfx.length ≤ si) (h2 : si - n.pfx.length ≤ path.length) :
-    Exits path 1 .any ⟨n :: S, s, si, arr, d, d, t⟩ S .param
+    Exits u path 1 .any ⟨n :: S, s, si, arr, d, d, t⟩ S .param
       ⟨S, path.drop (si - n.pfx.length), si - n.pfx.length, arr, d, d, t⟩ := by
   intro f
   rw [Nat.add_comm]
@@ -187,10 +238,10 @@ theorem back_static (path : Bytes) (n : Node) (S : List Node) (s : Bytes) (si : 
   | nil => simp [run, step, stepAny, hac, backtrack, hk, afterBack, nextKind, Nat.not_lt.mpr h1, Nat.not_lt.mpr h2]
   | cons p S' => simp [run, step, stepAny, hac, backtrack, hk, afterBack, nextKind, Nat.not_lt.mpr h1, Nat.not_lt.mpr h2]
 
-theorem back_param (path : Bytes) (n : Node) (S : List Node) (s : Bytes) (si : Nat) (arr : List Bytes) (j : Nat) (t : Bool)
+theorem back_param (u : Bool) (path : Bytes) (n : Node) (S : List Node) (s : Bytes) (si : Nat) (arr : List Bytes) (j : Nat) (t : Bool)
     (hk : n.kind = .pkind) (hac : n.anyChild = none) (h1 : (arr.getD j []).length ≤ si)
     (h2 : si - (arr.getD j []).length ≤ path.length) :
-    Exits path 1 .any ⟨n :: S, s, si, arr, j + 1, j + 1, t⟩ S .any
+    Exits u path 1 .any ⟨n :: S, s, si, arr, j + 1, j + 1, t⟩ S .any
       ⟨S, path.drop (si - (arr.getD j []).length), si - (arr.getD j []).length, arr, j, j, t⟩ := by
   intro f
   rw [Nat.add_comm]
@@ -200,9 +251,9 @@ theorem back_param (path : Bytes) (n : Node) (S : List Node) (s : Bytes) (si : N
   | nil => simp [run, step, stepAny, hac, backtrack, hk, afterBack, nextKind, Nat.not_lt.mpr h1, Nat.not_lt.mpr h2, e0]
   | cons p S' => simp [run, step, stepAny, hac, backtrack, hk, afterBack, nextKind, Nat.not_lt.mpr h1, Nat.not_lt.mpr h2, e0]
 
-theorem top_mismatch (path : Bytes) (n : Node) (S : List Node) (s : Bytes) (si : Nat) (arr : List Bytes) (d : Nat) (t : Bool)
+theorem top_mismatch (u : Bool) (path : Bytes) (n : Node) (S : List Node) (s : Bytes) (si : Nat) (arr : List Bytes) (d : Nat) (t : Bool)
     (hk : n.kind = .skind) (hpre : ¬ n.pfx.isPrefixOf s = true) :
-    ∃ t', Exits path 1 .top ⟨n :: S, s, si, arr, d, d, t⟩ S .param ⟨S, s, si, arr, d, d, t'⟩ := by
+    ∃ t', Exits u path 1 .top ⟨n :: S, s, si, arr, d, d, t⟩ S .param ⟨S, s, si, arr, d, d, t'⟩ := by
   refine ⟨t || (n.pfx.length == s.length + 1 && n.pfx.getD s.length 0 == 47 && n.pfx.take s.length == s
     && (n.handlers.isSome || n.anyChild.isSome)), ?_⟩
   intro f
@@ -218,24 +269,25 @@ theorem size_eq (n : Node) : size n = 1 + sizeL n.children + sizeO n.paramChild 
 
 /-! ## the simulation statements -/
 
-def HitC (path : Bytes) (k : Nat) (pc : Pc) (st : St) (f : Found) : Prop :=
-  ∃ t' arr' plen', Halts path k pc st (.value (some f.handlers) f.fullPath f.params t' arr' plen')
+def HitC (u : Bool) (path : Bytes) (k : Nat) (pc : Pc) (st : St) (f : Found) : Prop :=
+  ∃ t' arr' plen', Halts u path k pc st
+    (.value (some f.handlers) f.fullPath (f.params.map fun kv => (kv.1, unescapeVal u kv.2)) t' arr' plen')
 
-def SimStatic (path : Bytes) (cap : Nat) (n : Node) (j B : Nat) : Prop :=
+def SimStatic (u : Bool) (path : Bytes) (cap : Nat) (n : Node) (j B : Nat) : Prop :=
   ∀ (S : List Node) (s : Bytes) (si : Nat) (arr : List Bytes) (t : Bool),
     arr.length = cap → path.drop si = s → si ≤ path.length →
-    (∀ f, visit n s (arr.take j) cap = .hit f → ∃ k, k ≤ B ∧ HitC path k .top ⟨n :: S, s, si, arr, j, j, t⟩ f) ∧
+    (∀ f, visit n s (arr.take j) cap = .hit f → ∃ k, k ≤ B ∧ HitC u path k .top ⟨n :: S, s, si, arr, j, j, t⟩ f) ∧
     (visit n s (arr.take j) cap = .miss → ∃ k, k ≤ B ∧ ∃ arr' t', arr'.length = cap ∧ arr'.take j = arr.take j ∧
-        Exits path k .top ⟨n :: S, s, si, arr, j, j, t⟩ S .param ⟨S, s, si, arr', j, j, t'⟩)
+        Exits u path k .top ⟨n :: S, s, si, arr, j, j, t⟩ S .param ⟨S, s, si, arr', j, j, t'⟩)
 
-def SimParam (path : Bytes) (cap : Nat) (n : Node) (j B : Nat) : Prop :=
+def SimParam (u : Bool) (path : Bytes) (cap : Nat) (n : Node) (j B : Nat) : Prop :=
   ∀ (S : List Node) (s : Bytes) (si : Nat) (arr : List Bytes) (t : Bool),
     arr.length = cap → path.drop si = s → si ≤ path.length → (arr.getD j []).length ≤ si →
     (∀ f, visit n s (arr.take (j + 1)) cap = .hit f →
-        ∃ k, k ≤ B ∧ HitC path k .top ⟨n :: S, s, si, arr, j + 1, j + 1, t⟩ f) ∧
+        ∃ k, k ≤ B ∧ HitC u path k .top ⟨n :: S, s, si, arr, j + 1, j + 1, t⟩ f) ∧
     (visit n s (arr.take (j + 1)) cap = .miss → ∃ k, k ≤ B ∧ ∃ arr' t', arr'.length = cap ∧
         arr'.take (j + 1) = arr.take (j + 1) ∧
-        Exits path k .top ⟨n :: S, s, si, arr, j + 1, j + 1, t⟩ S .any
+        Exits u path k .top ⟨n :: S, s, si, arr, j + 1, j + 1, t⟩ S .any
           ⟨S, path.drop (si - (arr.getD j []).length), si - (arr.getD j []).length, arr', j, j, t'⟩)
 
 /-- result of the `Param:` and `Any:` blocks in the recursive formulation -/
@@ -244,20 +296,20 @@ def paRes (n : Node) (s : Bytes) (ps : List Bytes) (cap : Nat) : Res :=
     | [] => Res.miss
     | _ :: _ => visitParam n.paramChild s ps cap).orElse fun _ => visitAny n.anyChild s ps cap
 
-theorem param_sim (path : Bytes) (cap : Nat) (n : Node) (S : List Node) (s : Bytes) (si : Nat) (arr : List Bytes) (d : Nat)
+theorem param_sim (u : Bool) (path : Bytes) (cap : Nat) (n : Node) (S : List Node) (s : Bytes) (si : Nat) (arr : List Bytes) (d : Nat)
     (t : Bool) (hlen : arr.length = cap) (hdrop : path.drop si = s) (hsi : si ≤ path.length) (hd : d ≤ cap)
     (hwfA : WFO n.anyChild .akind) (hpA : PnOKO n.anyChild d cap)
-    (hP : ∀ pn, n.paramChild = some pn → d + 1 ≤ cap ∧ SimParam path cap pn d (4 * size pn)) :
+    (hP : ∀ pn, n.paramChild = some pn → d + 1 ≤ cap ∧ SimParam u path cap pn d (4 * size pn)) :
     (∀ f, paRes n s (arr.take d) cap = .hit f →
-        ∃ k, k ≤ 4 * sizeO n.paramChild + 2 ∧ HitC path k .param ⟨n :: S, s, si, arr, d, d, t⟩ f) ∧
+        ∃ k, k ≤ 4 * sizeO n.paramChild + 2 ∧ HitC u path k .param ⟨n :: S, s, si, arr, d, d, t⟩ f) ∧
     (paRes n s (arr.take d) cap = .miss → n.anyChild = none ∧ ∃ k, k ≤ 4 * sizeO n.paramChild + 1 ∧ ∃ arr' t',
         arr'.length = cap ∧ arr'.take d = arr.take d ∧
-        Reach path k .param ⟨n :: S, s, si, arr, d, d, t⟩ .any ⟨n :: S, s, si, arr', d, d, t'⟩) := by
+        Reach u path k .param ⟨n :: S, s, si, arr, d, d, t⟩ .any ⟨n :: S, s, si, arr', d, d, t'⟩) := by
   have htl : (arr.take d).length = d := by simp; omega
   -- the case in which the `Param:` block is skipped
   have skip : (s = [] ∨ n.paramChild = none) →
       paRes n s (arr.take d) cap = visitAny n.anyChild s (arr.take d) cap ∧
-      Reach path 1 .param ⟨n :: S, s, si, arr, d, d, t⟩ .any ⟨n :: S, s, si, arr, d, d, t⟩ := by
+      Reach u path 1 .param ⟨n :: S, s, si, arr, d, d, t⟩ .any ⟨n :: S, s, si, arr, d, d, t⟩ := by
     intro h
     rcases h with h | h
     · subst h
@@ -269,7 +321,7 @@ theorem param_sim (path : Bytes) (cap : Nat) (n : Node) (S : List Node) (s : Byt
   by_cases hskip : s = [] ∨ n.paramChild = none
   · obtain ⟨hr, hreach⟩ := skip hskip
     rw [hr]
-    obtain ⟨ha1, ha2⟩ := any_sim path cap n S s si arr d t hwfA hpA hlen
+    obtain ⟨ha1, ha2⟩ := any_sim u path cap n S s si arr d t hwfA hpA hlen
     refine ⟨?_, ?_⟩
     · intro f hf
       obtain ⟨t', arr', plen', hh⟩ := ha1 f hf
@@ -284,13 +336,12 @@ theorem param_sim (path : Bytes) (cap : Nat) (n : Node) (S : List Node) (s : Byt
       obtain ⟨c, r', rfl⟩ := List.exists_cons_of_ne_nil hs
       have hdl : d < arr.length := by omega
       -- one step into the parameter node
-      have hstep : Reach path 1 .param ⟨n :: S, c :: r', si, arr, d, d, t⟩ .top
+      have hstep : Reach u path 1 .param ⟨n :: S, c :: r', si, arr, d, d, t⟩ .top
           ⟨pn :: n :: S, segRest (c :: r'), si + (segValue (c :: r')).length, arr.set d (segValue (c :: r')), d + 1, d + 1,
             t || ((segRest (c :: r')).isEmpty && tsrChild pn)⟩ := by
         apply reach_step
-        simp only [step, stepParam, hpc, hlen, unescapeVal]
+        simp only [step, stepParam, hpc, hlen]
         rw [if_neg (by omega)]
-        simp
       have hlen2 : (arr.set d (segValue (c :: r'))).length = cap := by simp [hlen]
       have hsum := drop_len_le path si (c :: r') hdrop hsi
       have hvl : (segValue (c :: r')).length ≤ (c :: r').length := by
@@ -315,7 +366,7 @@ theorem param_sim (path : Bytes) (cap : Nat) (n : Node) (S : List Node) (s : Byt
       -- the state in which the machine is back at `Any:` of `n`
       have hback : visit pn (segRest (c :: r')) (arr.take d ++ [segValue (c :: r')]) cap = .miss →
           ∃ k, k ≤ 4 * size pn ∧ ∃ arr' t', arr'.length = cap ∧ arr'.take d = arr.take d ∧
-            Reach path (1 + k) .param ⟨n :: S, c :: r', si, arr, d, d, t⟩ .any ⟨n :: S, c :: r', si, arr', d, d, t'⟩ := by
+            Reach u path (1 + k) .param ⟨n :: S, c :: r', si, arr, d, d, t⟩ .any ⟨n :: S, c :: r', si, arr', d, d, t'⟩ := by
         intro hx
         obtain ⟨k, hk, arr', t', hl', htk, hex⟩ := hm hx
         refine ⟨k, hk, arr', t', hl', ?_, ?_⟩
@@ -338,7 +389,7 @@ theorem param_sim (path : Bytes) (cap : Nat) (n : Node) (S : List Node) (s : Byt
         exact ⟨1 + k, by omega, t', arr', plen', reach_halts hstep hhalt⟩
       | miss =>
         obtain ⟨k, hk, arr', t', hl', htk, hreach⟩ := hback hx
-        obtain ⟨ha1, ha2⟩ := any_sim path cap n S (c :: r') si arr' d t' hwfA hpA hl'
+        obtain ⟨ha1, ha2⟩ := any_sim u path cap n S (c :: r') si arr' d t' hwfA hpA hl'
         rw [htk] at ha1 ha2
         simp only [Res.orElse]
         refine ⟨?_, ?_⟩
@@ -364,29 +415,30 @@ theorem bodyRes_cons (n : Node) (c : UInt8) (r : Bytes) (ps : List Bytes) (cap :
         | some ch => visit ch (c :: r) ps cap).orElse fun _ => paRes n (c :: r) ps cap := by
   simp only [bodyRes, paRes, visitChild_eq]
 
-theorem body_sim (path : Bytes) (cap : Nat) (n : Node) (S : List Node) (s : Bytes) (si : Nat) (arr : List Bytes) (d : Nat)
+theorem body_sim (u : Bool) (path : Bytes) (cap : Nat) (n : Node) (S : List Node) (s : Bytes) (si : Nat) (arr : List Bytes) (d : Nat)
     (t : Bool) (hlen : arr.length = cap) (hdrop : path.drop si = s) (hsi : si ≤ path.length) (hd : d ≤ cap)
+    (hk : n.kind ≠ .akind)
     (hwfA : WFO n.anyChild .akind) (hpA : PnOKO n.anyChild d cap)
-    (hP : ∀ pn, n.paramChild = some pn → d + 1 ≤ cap ∧ SimParam path cap pn d (4 * size pn))
-    (hL : ∀ c ch, findChild n.children c = some ch → SimStatic path cap ch d (4 * size ch) ∧ size ch ≤ sizeL n.children) :
+    (hP : ∀ pn, n.paramChild = some pn → d + 1 ≤ cap ∧ SimParam u path cap pn d (4 * size pn))
+    (hL : ∀ c ch, findChild n.children c = some ch → SimStatic u path cap ch d (4 * size ch) ∧ size ch ≤ sizeL n.children) :
     (∀ f, bodyRes n.children n.ppath n.pnames n.handlers n.paramChild n.anyChild s (arr.take d) cap = .hit f →
-        ∃ k, k ≤ 4 * size n - 1 ∧ HitC path k .body ⟨n :: S, s, si, arr, d, d, t⟩ f) ∧
+        ∃ k, k ≤ 4 * size n - 1 ∧ HitC u path k .body ⟨n :: S, s, si, arr, d, d, t⟩ f) ∧
     (bodyRes n.children n.ppath n.pnames n.handlers n.paramChild n.anyChild s (arr.take d) cap = .miss →
         n.anyChild = none ∧ ∃ k, k ≤ 4 * size n - 2 ∧ ∃ arr' t', arr'.length = cap ∧ arr'.take d = arr.take d ∧
-        Reach path k .body ⟨n :: S, s, si, arr, d, d, t⟩ .any ⟨n :: S, s, si, arr', d, d, t'⟩) := by
+        Reach u path k .body ⟨n :: S, s, si, arr, d, d, t⟩ .any ⟨n :: S, s, si, arr', d, d, t'⟩) := by
   have htl : (arr.take d).length = d := by simp; omega
   have hsz := size_eq n
   -- continuing at `Param:` with a possibly different dead part of the params array
   have viaParam : ∀ (k0 : Nat) (arr1 : List Bytes) (t1 : Bool), arr1.length = cap → arr1.take d = arr.take d →
       k0 ≤ 1 + 4 * sizeL n.children →
-      Reach path k0 .body ⟨n :: S, s, si, arr, d, d, t⟩ .param ⟨n :: S, s, si, arr1, d, d, t1⟩ →
+      Reach u path k0 .body ⟨n :: S, s, si, arr, d, d, t⟩ .param ⟨n :: S, s, si, arr1, d, d, t1⟩ →
       (∀ f, paRes n s (arr.take d) cap = .hit f →
-        ∃ k, k ≤ 4 * size n - 1 ∧ HitC path k .body ⟨n :: S, s, si, arr, d, d, t⟩ f) ∧
+        ∃ k, k ≤ 4 * size n - 1 ∧ HitC u path k .body ⟨n :: S, s, si, arr, d, d, t⟩ f) ∧
       (paRes n s (arr.take d) cap = .miss →
         n.anyChild = none ∧ ∃ k, k ≤ 4 * size n - 2 ∧ ∃ arr' t', arr'.length = cap ∧ arr'.take d = arr.take d ∧
-        Reach path k .body ⟨n :: S, s, si, arr, d, d, t⟩ .any ⟨n :: S, s, si, arr', d, d, t'⟩) := by
+        Reach u path k .body ⟨n :: S, s, si, arr, d, d, t⟩ .any ⟨n :: S, s, si, arr', d, d, t'⟩) := by
     intro k0 arr1 t1 hl1 ht1 hk0 hreach
-    obtain ⟨hp1, hp2⟩ := param_sim path cap n S s si arr1 d t1 hl1 hdrop hsi hd hwfA hpA hP
+    obtain ⟨hp1, hp2⟩ := param_sim u path cap n S s si arr1 d t1 hl1 hdrop hsi hd hwfA hpA hP
     rw [ht1] at hp1 hp2
     refine ⟨?_, ?_⟩
     · intro f hf
@@ -408,9 +460,19 @@ theorem body_sim (path : Bytes) (cap : Nat) (n : Node) (S : List Node) (s : Byte
         intro f hf
         injection hf with hf
         subst hf
-        refine ⟨1, by omega, t, arr, d, ?_⟩
-        apply halts_step
-        simp [step, stepBody, hh, post, hpn]
+        cases u with
+        | false =>
+          refine ⟨1, by omega, t, arr, d, ?_⟩
+          apply halts_step
+          rw [map_unescapeVal_false]
+          simp [step, stepBody, hh, post, hpn]
+        | true =>
+          have hsk : skipIdx n = none := by simp [skipIdx, hk]
+          refine ⟨1, by omega, t, unescFirst d none arr, d, ?_⟩
+          apply halts_step
+          simp only [step, stepBody, hh, post, hsk, if_neg hpn, Option.isSome_some, Bool.and_self, if_true,
+            unescFirst_none_take]
+          rw [← zipKeys_map]
     | none =>
       have := bodyRes_nil_none n (arr.take d) cap hh
       rw [hh] at this
@@ -428,7 +490,7 @@ theorem body_sim (path : Bytes) (cap : Nat) (n : Node) (S : List Node) (s : Byte
       simp [step, stepBody, hfc]
     | some ch =>
       obtain ⟨hsim, hszc⟩ := hL c ch hfc
-      have hstep : Reach path 1 .body ⟨n :: S, c :: r, si, arr, d, d, t⟩ .top
+      have hstep : Reach u path 1 .body ⟨n :: S, c :: r, si, arr, d, d, t⟩ .top
           ⟨ch :: n :: S, c :: r, si, arr, d, d, t || (r.isEmpty && c == 47 && n.handlers.isSome)⟩ := by
         apply reach_step
         simp [step, stepBody, hfc]
@@ -455,24 +517,25 @@ theorem isPrefix_len (p s : Bytes) (h : p.isPrefixOf s = true) : p.length ≤ s.
   (List.isPrefixOf_iff_prefix.mp h).length_le
 
 mutual
-theorem visit_sim (path : Bytes) : (n : Node) → (pos : Kind) → (j cap : Nat) → WF n pos → PnOK n j cap →
-    (pos = .skind → SimStatic path cap n j (4 * size n)) ∧ (pos = .pkind → j + 1 ≤ cap ∧ SimParam path cap n j (4 * size n))
+theorem visit_sim (u : Bool) (path : Bytes) : (n : Node) → (pos : Kind) → (j cap : Nat) → WF n pos → PnOK n j cap →
+    (pos = .skind → SimStatic u path cap n j (4 * size n)) ∧ (pos = .pkind → j + 1 ≤ cap ∧ SimParam u path cap n j (4 * size n))
   | .mk kind label pfx cs ppath pnames hs pc ac, pos, j, cap, hwf, hp => by
     simp only [WF] at hwf
     obtain ⟨hk, hl, hpos, hcs, hnd, hpc, hac⟩ := hwf
     simp only [PnOK] at hp
     obtain ⟨hcap, hlen', hpL, hpP, hpA⟩ := hp
     subst hk
-    have hL := simL path cs (depthAt kind j) cap hcs hpL
-    have hP := simO path pc (depthAt kind j) cap hpc hpP
-    have hbody := fun (S : List Node) (s : Bytes) (si : Nat) (arr : List Bytes) (t : Bool) (h1 : arr.length = cap)
-        (h2 : path.drop si = s) (h3 : si ≤ path.length) =>
-      body_sim path cap (.mk kind label pfx cs ppath pnames hs pc ac) S s si arr (depthAt kind j) t h1 h2 h3 hcap
-        hac hpA hP hL
+    have hL := simL u path cs (depthAt kind j) cap hcs hpL
+    have hP := simO u path pc (depthAt kind j) cap hpc hpP
+    have hbody := fun (hkk : kind ≠ .akind) (S : List Node) (s : Bytes) (si : Nat) (arr : List Bytes) (t : Bool)
+        (h1 : arr.length = cap) (h2 : path.drop si = s) (h3 : si ≤ path.length) =>
+      body_sim u path cap (.mk kind label pfx cs ppath pnames hs pc ac) S s si arr (depthAt kind j) t h1 h2 h3 hcap
+        (by simpa [Node.kind] using hkk) hac hpA hP hL
     simp only [Node.children, Node.ppath, Node.pnames, Node.handlers, Node.paramChild, Node.anyChild] at hbody
     constructor
     · intro hpos'
       subst hpos'
+      have hbody := hbody (by decide)
       simp only [depthAt, if_true] at hbody hcap
       intro S s si arr t h1 h2 h3
       rw [visit_mk]
@@ -481,7 +544,7 @@ theorem visit_sim (path : Bytes) : (n : Node) → (pos : Kind) → (j cap : Nat)
       · simp only [hpre, if_true]
         have hple := isPrefix_len pfx s hpre
         have hsum := drop_len_le path si s h2 h3
-        have hstep : Reach path 1 .top ⟨.mk .skind label pfx cs ppath pnames hs pc ac :: S, s, si, arr, j, j, t⟩ .body
+        have hstep : Reach u path 1 .top ⟨.mk .skind label pfx cs ppath pnames hs pc ac :: S, s, si, arr, j, j, t⟩ .body
             ⟨.mk .skind label pfx cs ppath pnames hs pc ac :: S, s.drop pfx.length, si + pfx.length, arr, j, j, t⟩ := by
           apply reach_step
           simp [step, stepTop, Node.kind, Node.pfx, hpre]
@@ -494,7 +557,7 @@ theorem visit_sim (path : Bytes) : (n : Node) → (pos : Kind) → (j cap : Nat)
             reach_halts hstep hh⟩
         · intro hm
           obtain ⟨hacn, k, hk, arr', t', hl', ht', hr⟩ := hb2 hm
-          have hex := back_static path (.mk .skind label pfx cs ppath pnames hs pc ac) S (s.drop pfx.length)
+          have hex := back_static u path (.mk .skind label pfx cs ppath pnames hs pc ac) S (s.drop pfx.length)
             (si + pfx.length) arr' j t' rfl hacn (by simp [Node.pfx]) (by simp [Node.pfx]; omega)
           simp only [Node.pfx, Nat.add_sub_cancel, h2] at hex
           exact ⟨1 + k + 1, by have := size_eq (.mk .skind label pfx cs ppath pnames hs pc ac); omega, arr', t', hl', ht',
@@ -502,17 +565,18 @@ theorem visit_sim (path : Bytes) : (n : Node) → (pos : Kind) → (j cap : Nat)
       · simp only [hpre, Bool.false_eq_true, if_false]
         refine ⟨(by intro f hf; cases hf), ?_⟩
         intro _
-        obtain ⟨t', hex⟩ := top_mismatch path (.mk .skind label pfx cs ppath pnames hs pc ac) S s si arr j t rfl
+        obtain ⟨t', hex⟩ := top_mismatch u path (.mk .skind label pfx cs ppath pnames hs pc ac) S s si arr j t rfl
           (by simpa [Node.pfx] using hpre)
         exact ⟨1, by have := size_eq (.mk .skind label pfx cs ppath pnames hs pc ac); omega, arr, t', h1, rfl, hex⟩
     · intro hpos'
       subst hpos'
+      have hbody := hbody (by decide)
       simp only [depthAt, reduceCtorEq, if_false] at hbody hcap
       refine ⟨hcap, ?_⟩
       intro S s si arr t h1 h2 h3 h4
       rw [visit_mk]
       simp only [reduceCtorEq, if_false]
-      have hstep : Reach path 1 .top ⟨.mk .pkind label pfx cs ppath pnames hs pc ac :: S, s, si, arr, j + 1, j + 1, t⟩ .body
+      have hstep : Reach u path 1 .top ⟨.mk .pkind label pfx cs ppath pnames hs pc ac :: S, s, si, arr, j + 1, j + 1, t⟩ .body
           ⟨.mk .pkind label pfx cs ppath pnames hs pc ac :: S, s, si, arr, j + 1, j + 1, t⟩ := by
         apply reach_step
         simp [step, stepTop, Node.kind]
@@ -525,13 +589,13 @@ theorem visit_sim (path : Bytes) : (n : Node) → (pos : Kind) → (j cap : Nat)
       · intro hm
         obtain ⟨hacn, k, hk, arr', t', hl', ht', hr⟩ := hb2 hm
         have hg := getD_of_take arr' arr j ht'
-        have hex := back_param path (.mk .pkind label pfx cs ppath pnames hs pc ac) S s si arr' j t' rfl hacn
+        have hex := back_param u path (.mk .pkind label pfx cs ppath pnames hs pc ac) S s si arr' j t' rfl hacn
           (by rw [hg]; exact h4) (by rw [hg]; omega)
         rw [hg] at hex
         exact ⟨1 + k + 1, by have := size_eq (.mk .pkind label pfx cs ppath pnames hs pc ac); omega, arr', t', hl', ht',
           reach_exits (reach_trans hstep hr) hex⟩
-theorem simL (path : Bytes) : (cs : List Node) → (d cap : Nat) → WFL cs → PnOKL cs d cap →
-    ∀ c ch, findChild cs c = some ch → SimStatic path cap ch d (4 * size ch) ∧ size ch ≤ sizeL cs
+theorem simL (u : Bool) (path : Bytes) : (cs : List Node) → (d cap : Nat) → WFL cs → PnOKL cs d cap →
+    ∀ c ch, findChild cs c = some ch → SimStatic u path cap ch d (4 * size ch) ∧ size ch ≤ sizeL cs
   | [], _, _, _, _ => by intro c ch h; simp [findChild] at h
   | x :: r, d, cap, hwf, hp => by
     intro c ch h
@@ -542,12 +606,12 @@ theorem simL (path : Bytes) : (cs : List Node) → (d cap : Nat) → WFL cs → 
     · rw [if_pos hl] at h
       injection h with h
       subst h
-      exact ⟨(visit_sim path x .skind d cap hwf.1 hp.1).1 rfl, by simp [sizeL]⟩
+      exact ⟨(visit_sim u path x .skind d cap hwf.1 hp.1).1 rfl, by simp [sizeL]⟩
     · rw [if_neg hl] at h
-      obtain ⟨h1, h2⟩ := simL path r d cap hwf.2 hp.2 c ch h
+      obtain ⟨h1, h2⟩ := simL u path r d cap hwf.2 hp.2 c ch h
       exact ⟨h1, by simp only [sizeL]; omega⟩
-theorem simO (path : Bytes) : (pc : Option Node) → (d cap : Nat) → WFO pc .pkind → PnOKO pc d cap →
-    ∀ pn, pc = some pn → d + 1 ≤ cap ∧ SimParam path cap pn d (4 * size pn)
+theorem simO (u : Bool) (path : Bytes) : (pc : Option Node) → (d cap : Nat) → WFO pc .pkind → PnOKO pc d cap →
+    ∀ pn, pc = some pn → d + 1 ≤ cap ∧ SimParam u path cap pn d (4 * size pn)
   | none, _, _, _, _ => by intro pn h; cases h
   | some x, d, cap, hwf, hp => by
     intro pn h
@@ -555,7 +619,7 @@ theorem simO (path : Bytes) : (pc : Option Node) → (d cap : Nat) → WFO pc .p
     subst h
     simp only [WFO] at hwf
     simp only [PnOKO] at hp
-    exact (visit_sim path x .pkind d cap hwf hp).2 rfl
+    exact (visit_sim u path x .pkind d cap hwf hp).2 rfl
 end
 
 end Hertz.Route.Iter
